@@ -22,6 +22,10 @@ def levels(tier):
     if tier == "quick":
         return [
             {"name": "tpl-n0", "n": 0, "prelude": TPL, "alphabet": ["we"], "defaults": ["never", "domain"], "backends": ["memory", "file"]},
+            {"name": "del-n1", "n": 1, "prelude": [["links", [[1, 2], [2, 1]]], ["we", [[0, 3]]], ["we", [[1, 4]]]], "alphabet": ["delwe", "rmprefix"],
+             "defaults": ["never"], "backends": ["memory"], "pool": [POOL4[0], POOL4[1], POOL4[3]], "budget": 60},
+            {"name": "auto-del-n1", "n": 1, "prelude": [["links", [[1, 2], [2, 1]]]], "alphabet": ["delwe"],
+             "defaults": ["domain"], "backends": ["memory"], "pool": [POOL4[0], POOL4[1], POOL4[3]], "budget": 60},
             {"name": "tpl-n1", "n": 1, "prelude": TPL, "alphabet": ["addprefix", "rule"], "defaults": ["never"],
              "rule_patterns": ["path1"], "backends": ["memory"], "budget": 100, "pool": [POOL4[0], POOL4[1], POOL4[3]],
              "prelude": [["batch", 0, [1, 2]], ["links", [[1, 2], [2, 1], [1, 1]]], ["we", [[0, 3]]]]},
